@@ -1126,6 +1126,9 @@ def vr_cases(rng, n, dims=(1, 2, 3)):
             epss += [r, r - 1e-9, r + 1e-9, r / 2]
         eps = rng.choice(epss)
         L = Live((POOL_NAMES + ['twin', 'blank'])[j % (len(POOL_NAMES) + 2)], 'VR %s dim=%d eps=%r pts=%r' % (kind, dim, eps, pts), vr_eps=eps)
+        # every sixth case names its points like generated simplex names of higher orders ('2d0', '3d0', '1d1', ...):
+        # the names the flag completion will want to generate for its own edges and triangles
+        U = (lambda p: 'a%d.%d' % (1 + p % 3, p // 3)) if j % 6 == 4 else (lambda p: 'u%d' % p)
         L.do('new c0')
         withattrs = (j % 3 == 0)
         early = (j % 5 == 1)
@@ -1133,15 +1136,15 @@ def vr_cases(rng, n, dims=(1, 2, 3)):
             L.do('emb e c0 %d' % dim)       # the embedding is made first, of a complex that is still empty
         for p in range(npts):
             if withattrs:
-                L.do('dict DP%d {1:%d}' % (p, p)); L.do('add c0 u%d [] DP%d' % (p, p))
+                L.do('dict DP%d {1:%d}' % (p, p)); L.do('add c0 %s [] DP%d' % (U(p), p))
             else:
-                L.do('add c0 u%d [] -' % p)
+                L.do('add c0 %s [] -' % U(p))
         if npts >= 2 and rng.random() < 0.3:
-            L.do('addb c0 - [u0,u1] -')      # edges of the embedded complex do not matter
+            L.do('addb c0 - [%s,%s] -' % (U(0), U(1)))      # edges of the embedded complex do not matter
         if not early:
             L.do('emb e c0 %d' % dim)
         for p in range(npts):
-            L.do('pos e u%d %s' % (p, Lst([str(x) for x in pts[p]])))
+            L.do('pos e %s %s' % (U(p), Lst([str(x) for x in pts[p]])))
         e = L.ex.embs['e']
         c = L.ex.objs['c0']
         P = list(c.simplicesOfOrder(0))
@@ -1155,7 +1158,7 @@ def vr_cases(rng, n, dims=(1, 2, 3)):
             # the same embedding object after a point has been moved
             mv = rng.randrange(npts)
             newp = [rng.randrange(0, 5) for _ in range(dim)]
-            L.do('pos e u%d %s' % (mv, Lst([str(x) for x in newp])))
+            L.do('pos e %s %s' % (U(mv), Lst([str(x) for x in newp])))
             close2 = ['%d.%d' % (a, b) for a in range(len(P)) for b in range(a + 1, len(P))
                       if e.distance(e.positionOf(P[a]), e.positionOf(P[b])) <= eps]
             L.do('vr e v2 ' + Lst(close2))
@@ -1164,7 +1167,7 @@ def vr_cases(rng, n, dims=(1, 2, 3)):
         if npts >= 2 and rng.random() < 0.3:
             # the same embedding object after a positioned point has left the complex and another has joined it
             gone = rng.randrange(npts)
-            L.do('del c0 u%d' % gone); L.do('add c0 u%d [] -' % (50 + gone))
+            L.do('del c0 %s' % U(gone)); L.do('add c0 u%d [] -' % (50 + gone))
             L.do('pos e u%d %s' % (50 + gone, Lst([str(rng.randrange(0, 5)) for _ in range(dim)])))
             P3 = list(c.simplicesOfOrder(0))
             close3 = ['%d.%d' % (a, b) for a in range(len(P3)) for b in range(a + 1, len(P3))
